@@ -16,7 +16,7 @@ import warnings
 
 from simkit import core
 from simkit.refmodels.known_hashes import KNOWN, MIN_COST, PW
-from simkit.sched import Scheduler, SimLock, repo_prefixes
+from simkit.sched import Scheduler, SimLock, install_import_locks, repo_prefixes
 
 NAME = "lazyinit"
 RULE = {
@@ -61,6 +61,14 @@ PRESETS = [("passlib.apps", "custom_app_context", ["sha512_crypt", "sha256_crypt
            ("passlib.hosts", "linux_context", ["sha512_crypt", "sha256_crypt", "md5_crypt", "des_crypt", "bcrypt"]),
            ("passlib.hosts", "host_context", ["sha512_crypt", "md5_crypt", "des_crypt"]),
            ("passlib.hosts", "freebsd_context", ["bcrypt", "md5_crypt", "des_crypt", "bsdi_crypt"])]
+REGISTRY_SIBLINGS = [["bcrypt", "bcrypt_sha256"], ["cisco_pix", "cisco_asa", "cisco_type7"], ["bigcrypt", "bsdi_crypt", "crypt16", "des_crypt"],
+                     ["hex_md4", "hex_md5", "hex_sha1", "hex_sha256", "hex_sha512", "htdigest"],
+                     ["django_pbkdf2_sha256", "django_pbkdf2_sha1", "django_salted_sha1", "django_salted_md5", "django_des_crypt", "django_disabled"],
+                     ["ldap_md5", "ldap_sha1", "ldap_salted_md5", "ldap_salted_sha1", "ldap_salted_sha256", "ldap_md5_crypt", "ldap_sha256_crypt"],
+                     ["apr_md5_crypt", "md5_crypt"], ["plaintext", "unix_disabled"], ["mssql2000", "mssql2005"], ["mysql323", "mysql41"],
+                     ["oracle10", "oracle11"], ["pbkdf2_sha1", "pbkdf2_sha256", "pbkdf2_sha512", "ldap_pbkdf2_sha256", "grub_pbkdf2_sha512", "atlassian_pbkdf2_sha1"],
+                     ["ldap_hex_md5", "ldap_hex_sha1", "roundup_plaintext"], ["sha256_crypt", "sha512_crypt"],
+                     ["bsd_nthash", "lmhash", "msdcc", "msdcc2", "nthash"]]
 REGISTRY_NAMES = ["md5_crypt", "sha256_crypt", "bcrypt", "pbkdf2_sha256", "ldap_salted_sha1", "phpass", "des_crypt", "scrypt",
                   "ldap_md5_crypt", "django_pbkdf2_sha256", "hex_md5", "unix_disabled", "bsdi_crypt", "nthash", "cisco_type7",
                   "scram", "sun_md5_crypt", "fshp", "mssql2005", "oracle11", "grub_pbkdf2_sha512", "ldap_pbkdf2_sha256"]
@@ -146,15 +154,18 @@ def generate(rng, prop, tier):
             threads.append(calls)
     elif t == "T5":
         name = rng.choice(REGISTRY_NAMES)
-        params = {"name": name}
+        # siblings: names hosted by the same, not yet imported, handler module -- the second thread asks for its
+        # name while the first is in the middle of importing the module they share
+        names = rng.choice(REGISTRY_SIBLINGS) if rng.random() < 0.6 else [name]
+        params = {"name": names[0], "names": names}
         for _ in range(nthreads):
-            spelled = rng.choice([name, name, name, name.replace("_", "-"), name.upper()])
-            threads.append([[rng.choice(["get_crypt_handler", "hash_attr", "new_context", "get_crypt_handler"]), spelled if rng.random() < 0.3 else name]
-                            for _ in range(rng.randint(1, 2))])
-        for th in threads:
-            for c in th:
-                if c[0] == "hash_attr":
-                    c[1] = name
+            calls = []
+            for _ in range(rng.randint(1, 2)):
+                name = rng.choice(names)
+                spelled = rng.choice([name, name, name, name.replace("_", "-"), name.upper()])
+                k = rng.choice(["get_crypt_handler", "hash_attr", "new_context", "get_crypt_handler"])
+                calls.append([k, spelled if rng.random() < 0.3 and k != "hash_attr" else name])
+            threads.append(calls)
     elif t == "T6":
         schemes = rng.sample(CTX_SCHEMES, rng.randint(1, 4))
         if rng.random() < 0.5:
@@ -204,7 +215,9 @@ def generate(rng, prop, tier):
     elif strategy == "hotspot":
         sparams = {"plan": [[rng.choice(HOT[:17]), rng.randint(1, 12)] for _ in range(rng.randint(1, 3))],
                    "p": rng.choice([0.0, 0.005, 0.02])}
-    cfg = {"target": t, "params": params, "threads": threads, "strategy": strategy, "sparams": sparams,
+    # pre-emption inside module bodies of imports made by the threads (cooperative import locks)
+    preempt_imports = rng.random() < {"T5": 0.7, "T1": 0.25, "T2": 0.25, "T6": 0.25}.get(t, 0.1)
+    cfg = {"target": t, "params": params, "threads": threads, "strategy": strategy, "sparams": sparams, "preempt_imports": preempt_imports,
            "opcode_hot": tier == "thorough" and rng.random() < 0.3, "seed": rng.getrandbits(32)}
     return {"cfg": cfg, "ops": []}
 
@@ -576,7 +589,10 @@ def execute(program, ctx):
     # 2. the concurrent run
     decisions = program["ops"] if cfg["strategy"] == "replay" else None
     sched = Scheduler(random.Random(cfg["seed"]), cfg["strategy"], cfg.get("sparams"), repo_prefixes(),
-                      max_steps=150000, hot_names=HOT, opcode_hot=cfg.get("opcode_hot", False), decisions=decisions)
+                      max_steps=150000, hot_names=HOT, opcode_hot=cfg.get("opcode_hot", False), decisions=decisions,
+                      preempt_imports=cfg.get("preempt_imports", False))
+    if cfg.get("preempt_imports"):
+        install_import_locks(sched)
     # the library's one shared random source is a seam too: salts decide data-dependent paths (e.g. bcrypt's
     # padding-bit repair), so it is fed from the run's seed
     from simkit.seams import SimRandom
@@ -607,6 +623,10 @@ def execute(program, ctx):
     ctx.sim_time += sched.step
     ctx.fault("preemption", max(0, len(sched.switches) - 1))
     ctx.fault("lock_contention", sum(l.contended for l in locks.values()))
+    if cfg.get("preempt_imports"):
+        ctx.fault("import_lock_wait", sched.import_waits)
+        if any(s[2] == "<module>" for s in sched.switch_sites):
+            ctx.probe("preempted_inside_module_body")
     ctx.extra["strategies"] = {cfg["strategy"]: 1}
     ctx.extra["targets"] = {cfg["target"]: 1}
     ctx.extra["hot_hits"] = dict(sched.hot_hits)
